@@ -305,9 +305,20 @@ impl State {
     }
 
     pub fn location_from_current_ip(&self) -> Option<TokenLocation> {
-        self.debug_map
-            .get(self.ip())
-            .and_then(|tok| token_location(&self.sources, tok))
+        let at = |ip: usize| {
+            self.debug_map
+                .get(ip)
+                .filter(|tok| !tok.is_empty())
+                .and_then(|tok| token_location(&self.sources, tok))
+        };
+        // code that no source text stands for (the stub of a host-defined word) is located at the
+        // innermost call that has one
+        at(self.ip()).or_else(|| {
+            self.return_stack
+                .iter()
+                .rev()
+                .find_map(|f| f.return_to.checked_sub(1).and_then(at))
+        })
     }
 
     pub fn pretty_error(&self) -> Option<String> {
@@ -776,6 +787,15 @@ impl State {
     }
 
     pub fn defwordself(&mut self, name: &str, x: XfnType, slf: Cell) -> Xresult {
+        // no source text stands for the stub: it must not be stamped with whatever token was
+        // read last (an error raised behind the word would be reported at that unrelated token)
+        let last_token = self.last_token.take();
+        let res = self.defwordself_stub(name, x, slf);
+        self.last_token = last_token;
+        res
+    }
+
+    fn defwordself_stub(&mut self, name: &str, x: XfnType, slf: Cell) -> Xresult {
         let start = self.code_origin();
         self.code_emit(Opcode::Jump(RelativeJump::uninit()))?;
         let fn_addr = self.code_origin();
